@@ -169,8 +169,42 @@ def _type_of_callee(name):
     return m.group(1) if m else name.rsplit("::", 2)[-2]
 
 
+WORLD = [None]
+_SUMMARY = {}
+
+
+def _helper_summary(name):
+    """encoding read by a small workspace helper `fn(reader) -> io::Result<int>` that performs exactly one
+    read_exact into a byte array and returns that array decoded by from_le_bytes / from_be_bytes of the
+    matching width (e.g. a private `read_u32_le`); None for anything else"""
+    w = WORLD[0]
+    if w is None:
+        return None
+    if name in _SUMMARY:
+        return _SUMMARY[name]
+    _SUMMARY[name] = None
+    fs = [g for g in w.fns.values() if g.p == name and g.body is not None and not g.is_closure()]
+    if len(fs) != 1:
+        return None
+    b = fs[0].body
+    calls = [t for bb, t in b.calls() if t.callee.indirect is None and not b.blocks[bb].cleanup]
+    reads = [t for t in calls if READ_EXACT.search(t.callee.target_p())]
+    ints = [INT_FROM.search(t.callee.target_p()) for t in calls if INT_FROM.search(t.callee.target_p())]
+    other = [t for t in calls if CS_R.search(t.callee.target_p()) or
+             (re.search(r"::read(_\w+)?$", t.callee.target_p()) and not READ_EXACT.search(t.callee.target_p()))]
+    if len(reads) != 1 or len(ints) != 1 or other:
+        return None
+    width = {"u8": 1, "u16": 2, "u32": 4, "u64": 8, "i8": 1, "i16": 2, "i32": 4, "i64": 8, "u128": 16}.get(ints[0].group(1))
+    bufs = [ty for ty, _n in b.locals if re.match(r"^\[u8; %s\]$" % width, ty)]
+    if width is None or not bufs:
+        return None
+    _SUMMARY[name] = "int:%s:%s" % (ints[0].group(2), ints[0].group(1))
+    return _SUMMARY[name]
+
+
 def reader_ops(w, f):
     """[(pos, field, enc)] for a reader fn `read(.., r) -> io::Result<Self>`"""
+    WORLD[0] = w
     body = f.body
     du = defuse.DefUse(body)
     out = []
@@ -220,6 +254,8 @@ def reader_ops(w, f):
                         enc = "u256:le"
                     elif CS_R.search(name):
                         enc = "cs:" + ("unbounded" if "unbounded" in name else "bounded")
+                    else:
+                        enc = _helper_summary(name)
                     if enc:
                         out.append((pos, tgt, enc))
             continue
@@ -301,6 +337,9 @@ def _decode(body, du, op, pending):
                 return (None, "cs:" + ("unbounded" if "unbounded" in mm.group(1) else "bounded"))
             if re.search(r"::read$", name) and not name.startswith("core::"):
                 return (None, "nested:" + _type_of_callee(name))
+            hs = _helper_summary(name)
+            if hs:
+                return (None, hs)
             if re.search(r"::(branch|from_residual|map_err|map|from|into|ok_or)$", name) and o[2]:
                 o = o[2][0]
                 continue
